@@ -1123,6 +1123,63 @@ def rule_p(F):
                 # the work list grows: Vec<..CaoLangObject..>::push or a collector function that pushes its argument
                 if col.push_args(g.blocks[b2]["term"]):
                     found = True
+    if not found:
+        # `worklist.extend(<objects>.filter(|t| matches!(t.marker, Protected)))`: the work list is extended by exactly the
+        # items whose marker test holds for Protected
+        from cao.facts import pat_variants
+        ALLV = set(v["name"] for v in marker["variants"])
+
+        def pred_true_set(e, pid):
+            """`matches!(<p>.marker | <p>, pats)` / its negation over closure parameter pid -> set of variants it accepts"""
+            e = hu.strip_casts(e)
+            if e is None:
+                return None
+            if e.get("k") == "un" and e["op"] == "Not":
+                r = pred_true_set(e["e"], pid)
+                return (ALLV - r) if r is not None else None
+            if e.get("k") != "match":
+                return None
+            sc = hu.strip_all(e["scrut"])
+            if sc is not None and sc.get("k") == "field" and sc["name"] == "marker":
+                sc = hu.strip_all(sc["e"])
+            if sc is None or sc.get("k") != "path" or sc["path"]["res"].get("id") != pid:
+                return None
+            true_set, seen = set(), set()
+            for a in e["arms"]:
+                b = hu.strip_casts(a["body"])
+                val = b["lit"]["v"] if b is not None and b.get("k") == "lit" and b["lit"]["k"] == "bool" else None
+                if val is None:
+                    return None
+                names = set(n.rsplit("::", 1)[-1] for n, _s, _p in pat_variants(a["pat"]) if "::" in n) or (ALLV - seen)
+                names -= seen
+                seen |= names
+                if val:
+                    true_set |= names
+            return true_set
+        for g in col.fns:
+            if g.hir is None:
+                continue
+            for x in hir_walk(g.hir["body"]):
+                if not (x.get("k") == "mcall" and x.get("name") == "extend" and x["args"]):
+                    continue
+                rty = (hir_strip(x["recv"]) or {}).get("ty", "") or ""
+                if not ("Vec<" in rty and "CaoLangObject" in rty):
+                    continue
+                it = hir_strip(x["args"][0])
+                while it is not None and it.get("k") == "mcall":
+                    if it.get("name") == "filter" and it["args"] and any(n.endswith("Iterator::filter") for n in hir_callee(it)):
+                        cl = hir_strip(it["args"][0])
+                        if cl is not None and cl.get("k") == "closure" and len(cl.get("params", [])) == 1:
+                            ids = [i for i, _n in pat_bindings(cl["params"][0])]
+                            ts = pred_true_set(cl["body"], ids[0]) if len(ids) == 1 else None
+                            if ts is not None and "Protected" in ts:
+                                found = True
+                                n_switch += 1
+                        break
+                    if it.get("name") in ("rev", "copied", "cloned", "by_ref", "into_iter"):
+                        it = hir_strip(it["recv"])
+                        continue
+                    break
     if found:
         res.append(ok("C02.P", "C02/P/protected-objects-traced", gc.loc(), "gc pushes Protected objects on the gray worklist", marker_switches=n_switch))
     else:
@@ -1409,7 +1466,7 @@ def rule_k(F):
                 return None
             return None
 
-        def item_constraint(lid):
+        def item_constraint(lid, kind="ref"):
             """the local is an item of `<iter>.filter(pred)`: bound by the closure of `.for_each(..)` on it or by the
             pattern of a `for` loop over it -> (subject of pred's parameter, values that pass) or None"""
             for x in nodes.values():
@@ -1423,7 +1480,7 @@ def rule_k(F):
                         fp = filter_pred(par["recv"])
                         if fp:
                             t = marker_test(f, fp[1])
-                            if t and t[0] == ("ref", fp[0]):
+                            if t and t[0] == (kind, fp[0]):
                                 return t[1]
                 elif k == "match" and x.get("source") == "ForLoopDesugar":
                     sc = hir_strip(x["scrut"])
@@ -1442,7 +1499,7 @@ def rule_k(F):
                         fp = filter_pred(sc)
                         if fp:
                             t = marker_test(f, fp[1])
-                            if t and t[0] == ("ref", fp[0]):
+                            if t and t[0] == (kind, fp[0]):
                                 return t[1]
             return None
 
@@ -1462,8 +1519,8 @@ def rule_k(F):
                 elif c["k"] == "match" and kind.startswith("arm"):
                     if subject(f, c["scrut"]) == su:
                         allowed &= arm_set(c, int(kind[3:]))
-            if su[0] == "ref":
-                ic = item_constraint(su[1])
+            if su[0] in ("ref", "obj"):
+                ic = item_constraint(su[1], su[0])
                 if ic is not None:
                     allowed &= ic
             return allowed
@@ -1600,11 +1657,32 @@ def rule_r(F):
                   "natives are rooted" if not wrappers_pop else
                   "the VmFunctionN wrappers pop the arguments before calling the host function: parameters of natives are unrooted sources",
                   wrappers=len(wrappers)))
+    # a private helper that exactly one function calls is part of that function: its hazards are reported under the caller
+    # (the registered native / public entry point), so flattening a native into helpers does not move a finding
+    callers = {}
+    for g_ in fns:
+        owner = g_.root or g_.short
+        for _bi, t_ in mu.calls(g_):
+            for n_ in callee_names(t_["func"]):
+                if n_ != owner:
+                    callers.setdefault(n_, set()).add(owner)
+
+    def attributed(name):
+        seen_ = set()
+        while name not in seen_:
+            seen_.add(name)
+            h_ = F.fn(name, required=False)
+            if h_ is None or h_.raw.get("vis", "Public") == "Public" or len(callers.get(name, ())) != 1:
+                break
+            name = next(iter(callers[name]))
+        return name
     for f in order:
         hz = results.get(f.short)
         if hz is None:
             continue
-        fname = (f.root or f.short)
+        fname = attributed(f.root or f.short)
+        own = (f.root or f.short)
+        own_base = own.rsplit("::", 1)[-1] if not own.startswith("<") else "VmFunction::call" + _arity(own)
         base = fname.rsplit("::", 1)[-1] if not fname.startswith("<") else "VmFunction::call" + _arity(fname)
         if f.is_closure:
             base += "{closure}"
@@ -1655,7 +1733,7 @@ def rule_r(F):
             else:
                 res.append(bad("C02.R", key, f.loc(h["ln"]), msg))
         if not hz:
-            res.append(ok("C02.R", "C02/R/%s/no-hazard" % (base if not f.is_closure else f.short.rsplit("::", 2)[-2] + "::" + f.short.rsplit("::", 1)[-1]),
+            res.append(ok("C02.R", "C02/R/%s/no-hazard" % (own_base if not f.is_closure else f.short.rsplit("::", 2)[-2] + "::" + f.short.rsplit("::", 1)[-1]),
                           f.loc(), "no unrooted value is passed into or live across a call that may collect"))
     return res
 
